@@ -586,10 +586,26 @@ fn describe(c: &Case) -> serde_json::Value {
 
 pub fn replay(case: &serde_json::Value) -> i32 {
     let script = case["script"].as_str().unwrap();
-    let mut s = Setup::script(script);
+    let mut s = match case["shell_reads_script_from"].as_str() {
+        Some("file") => {
+            let mut s = Setup::default();
+            s.argv = vec!["yash".into(), "/tmp/w/main".into()];
+            s
+        }
+        Some("stdin") => {
+            let mut s = Setup::default();
+            s.argv = vec!["yash".into(), "-s".into()];
+            s.stdin = Some(script.as_bytes().to_vec());
+            s
+        }
+        _ => Setup::script(script),
+    };
     s.dirs.push("/tmp/w".into());
     s.files.push(("/tmp/w/e".into(), b"E\n".to_vec(), 0o644));
     s.files.push(("/tmp/w/w".into(), b"W\n".to_vec(), 0o644));
+    s.files.push(("/tmp/w/main".into(), script.as_bytes().to_vec(), 0o644));
+    s.files.push(("/tmp/w/script".into(), b"fds dot\n( fds dotsub )\nfds dot2 <e\n".to_vec(), 0o644));
+    s.files.push(("/tmp/w/script2".into(), b"fds outer\n. ./script\nfds outer2\n".to_vec(), 0o644));
     s.cwd = Some("/".into());
     let r = run_once(&s, &Default::default());
     println!("{script}");
